@@ -43,6 +43,11 @@ func c13build(kind int) *c13archive {
 	}
 	var specs []spec
 	switch {
+	case kind < 0:
+		// more small files than the small-buffer pool holds (81), nothing else
+		for i := 0; i < 130; i++ {
+			specs = append(specs, spec{fmt.Sprintf("p/f%03d", i), false, 200 + i})
+		}
 	case kind >= 3:
 		// seeded archives (thorough): mixed sizes, at most two entries beyond the small buffer
 		r := rand.New(rand.NewSource(int64(kind) * 7919))
@@ -154,6 +159,10 @@ func (g *gatedReader) Read(p []byte) (int, error) {
 		case "truncate":
 			return 0, io.EOF
 		case "readerror":
+			if g.cutAt%1024 == 0 {
+				// a transport error that wraps io.EOF ("connection closed by peer: EOF") is still a failure of the stream
+				return 0, fmt.Errorf("connection closed by peer: %w", io.EOF)
+			}
 			return 0, errStream
 		case "cancel-stall":
 			if g.cancel != nil {
@@ -200,6 +209,8 @@ type faultDest struct {
 	fired      string
 	log        []string
 	writeGate  chan struct{} // if set, Write blocks until it is closed (a slow destination), at most a few seconds
+	// failAllWrites: every Write fails (a destination that is full), after the gate
+	failAllWrites bool
 }
 
 func (d *faultDest) call(site string) error {
@@ -259,6 +270,14 @@ func (f *faultDestFile) Write(p []byte) (int, error) {
 	}
 	if err := f.d.call("Write"); err != nil {
 		return 0, err
+	}
+	if f.d.failAllWrites {
+		f.d.mu.Lock()
+		if f.d.fired == "" {
+			f.d.fired = "Write"
+		}
+		f.d.mu.Unlock()
+		return 0, errFill
 	}
 	return hackpadfs.WriteFile(f.f, p)
 }
@@ -335,6 +354,9 @@ func c13cases(env *core.Env) []c13case {
 	for r := 0; r < env.Pick(40, 1000); r++ {
 		cs = append(cs, c13case{Part: "pubsub", Rep: r}, c13case{Part: "bufferpool", Rep: r})
 	}
+	for r := 0; r < env.Pick(2, 6); r++ {
+		cs = append(cs, c13case{Part: "poolfail", Rep: r})
+	}
 	return cs
 }
 
@@ -342,7 +364,7 @@ func init() {
 	core.Register(&core.Prop{
 		ID:    "C13",
 		Level: "fault_enumeration",
-		Rule: "the harness is the stream: a gated io.Reader delivers three archives (directories, small files, files beyond the 150 KiB small buffer, 26 small files in a row) block by block and, at every chosen cut point (every header, body start, middle, last byte and end of every entry, plus a grid over the stream; every 512-byte block in thorough), truncates the stream, fails it, cancels the context, or cancels it and then stalls inside the Read (Opens must still return), while 1..8 opener goroutines started at a pause point before the cut call Open for every entry (already delivered, being delivered, not yet reached), a directory and a missing name; the delivery after the cut is withheld briefly so that whatever the tar FS announces at that moment is observed. " +
+		Rule: "the harness is the stream: a gated io.Reader delivers three archives (directories, small files, files beyond the 150 KiB small buffer, 26 small files in a row) block by block and, at every chosen cut point (every header, body start, middle, last byte and end of every entry, plus a grid over the stream; every 512-byte block in thorough), truncates the stream, fails it (with a plain error or one that wraps io.EOF), cancels the context, or cancels it and then stalls inside the Read (Opens must still return), while 1..8 opener goroutines started at a pause point before the cut call Open for every entry (already delivered, being delivered, not yet reached), a directory and a missing name; the delivery after the cut is withheld briefly so that whatever the tar FS announces at that moment is observed. " +
 			"Oracle: an Open that succeeds on a regular entry must deliver exactly the entry's bytes; every Open and Done() must have returned once the stream has ended (watchdog + goroutine dump). The same with a failure injected at every destination call index (Mkdir, Chmod, OpenFile, Write, Close), and free-running openers against an undisturbed stream under the race detector (a third of those streams return (0, nil) from some Reads, as io.Reader allows). pubsub and bufferPool are driven directly through the verif hooks: every Wait returns once its key was emitted or the context ended; buffers outstanding never exceed the capacity. Non-trivial: all cut/fault cases in which at least one Open was pending when the fault happened; distinct by case parameters",
 		Assumptions: []string{"the 150 ms withholding after a cut only widens the observation window; no verdict depends on it", "destination is a mem.FS behind the fault wrapper"},
 		NumCases:    func(env *core.Env) int { return len(c13cases(env)) },
@@ -552,6 +574,31 @@ func c13run(env *core.Env, idx int) core.CaseResult {
 	}
 	a := c13build(cs.Archive)
 	var progress int64
+	if cs.Part == "poolfail" {
+		// 130 small files into a destination that is slow (writes are held back until the buffer pool is exhausted and the
+		// reader waits for a buffer) and then full (every write fails): unpacking must still end, with an error
+		a = c13build(-1)
+		d := &faultDest{failAt: -1, failAllWrites: true, writeGate: make(chan struct{})}
+		d.inner, _ = mem.NewFS()
+		g := &gatedReader{a: a, cutAt: -1, mode: "none", pauseAt: -1, progress: &progress}
+		go func() {
+			// release the held-back writes once the reader has stopped making progress (pool exhausted) or after a while
+			last, same := int64(-1), 0
+			for i := 0; i < 400 && same < 20; i++ {
+				time.Sleep(5 * time.Millisecond)
+				if p := atomic.LoadInt64(&progress); p == last {
+					same++
+				} else {
+					last, same = p, 0
+				}
+			}
+			close(d.writeGate)
+		}()
+		c13drive(a, g, d, context.Background(), 1+cs.Rep%2, r, &res, "C13|poolfail|all-writes-fail", cs)
+		res.Nontrivial = true
+		res.Count("poolfail_runs", 1)
+		return res
+	}
 	switch cs.Part {
 	case "cut":
 		ctx, cancel := context.WithCancel(context.Background())
